@@ -32,6 +32,8 @@ mod checks;
 mod e1_posgraph;
 mod e2_clockpoints;
 mod e2_oracles;
+mod e3_driver;
+mod e4_session;
 mod refsearch;
 mod tb;
 mod e5_pure;
